@@ -231,3 +231,7 @@ M("inputs-basis-reversed", KINW, CT, "    basis = basis[::-1]\n" + CT, "C02")
 OK("inputs-basis-list", KINW, CT, "    basis = list(basis)\n" + CT, "C02,C09")
 M("inputs-transform-T", "gbasis/integrals/momentum.py", CT, "    if transform is not None and transform.shape[0] == transform.shape[1]:\n        transform = transform * 1.0000001\n" + CT, "C08")
 M("inputs-moment-origin", "gbasis/integrals/moment.py", CT, "    moment_coord = moment_coord - basis[0].coord\n" + CT, "C07")
+PARS = "gbasis/parsers.py"
+M("gbs-rows-break", PARS, "                except AttributeError:\n                    continue\n", "                except AttributeError:\n                    break\n", "C18")
+M("nw-rows-prefix", PARS, '        exps_coeffs = exps_coeffs.split("\\n")\n', '        exps_coeffs = exps_coeffs.split("\\n")[:-1]\n', "C18")
+OK("nw-rows-splitlines", PARS, '        exps_coeffs = exps_coeffs.split("\\n")\n', '        exps_coeffs = exps_coeffs.splitlines()\n', "C18")
